@@ -92,6 +92,8 @@ def strategy_(draw, tier):
       op['name'] = draw(st.sampled_from(names[c]))
       op['val'] = val()
       op['tag'] = draw(st.sampled_from(_TAGS))
+      if kind in ('add_tag', 'remove_tag', 'set_tags', 'clear_tags') and draw(st.floats(0, 1)) < 0.35:
+        op['name'] = draw(st.integers(0, info.npos + 1))   # the tag APIs also take a positional index
     elif kind in ('set_item', 'del_item'):
       op['idx'] = draw(st.sampled_from(idxs))
       op['val'] = val()
@@ -229,6 +231,7 @@ def _check(case, out, stack):
   dirty = [set(), set()]       # keys edited while suspended (value)
   dirty_tags = [set(), set()]
   shifted = suspended_edit = tag_edit = threaded = False
+  retired = []                 # (configuration that was copied from, its state at that time)
 
   for oi, op in enumerate(case['ops']):
     c = op['c']
@@ -256,10 +259,15 @@ def _check(case, out, stack):
         return out
       continue
     suspended = depth_before > 0
-    if k == 'copy_with' and raised is None:
-      # the copy carries the original's history plus the new entries; original untouched
-      if _state(old_cfg) != before[c] and not suspended:
-        pass
+    if k == 'copy_with' and raised is None and cfgs[c] is not old_cfg:
+      # the copy carries the original's history plus the new entries; the original is untouched,
+      # now and under every later edit of the copy
+      retired.append((old_cfg, before[c]))
+    for r_cfg, r_state in retired:
+      if _state(r_cfg) != r_state:
+        out.add('copy-or-edit-of-copy-changed-the-original', 'mismatch', '', feat,
+                f'op {oi} {op}: history/arguments/tags of the copied-from configuration changed')
+        return out
     after = [_state(cfg) for cfg in cfgs]
     if k.endswith('slice') or k.endswith('item'):
       va0 = {kk for kk in before[c][0] if isinstance(kk, int)}
